@@ -30,7 +30,8 @@ from .. import leanio
 from ..core import Ctx, CORPUS
 
 ID = "C16"
-LEVEL = "partial"
+LEVEL = "proof"
+STRENGTH = "partial"   # valid names, distinct names and id-level isolation are proved only under named guards (open findings)
 ENGINES = ["lean-model", "purediff"]
 LEVEL_TEXT = (
     "PARTIAL: three clauses of the property are false of the code and are proved only under exact guards. "
